@@ -4,6 +4,54 @@ import json, subprocess, sys
 
 # id -> (technique, level text, level note, design ref); only claimed properties are listed
 CLAIMED = {
+    "C01": (
+        "proptest-generated multi-node simulations (real pool + real Votor per correct node, Byzantine puppets < 20 %, harness-owned network and paused clock) with a cross-node history invariant after every action",
+        "Generated-input search over validator sets (threshold-exact stakes), Byzantine sets, crash points and schedules built from rule-following rounds, split rounds with all delivery-order permutations, leader equivocation with late twins, selective delivery, Byzantine votes and adversary-aggregated certificates; after every action: no conflicting finalisation, one chain, no directly finalised slot with a skip certificate, monotone finalized slot, none of the code's own safety assertions. Right level: safety over schedules needs a harness-owned scheduler; exploration depth is reported, absence is not claimed.",
+        "adversary is template-guided random search over 5..=10 validators; correct leaders modelled conservatively; BLS / hash assumptions",
+        "DESIGN.md §5 C01",
+    ),
+    "C02": (
+        "proptest-generated full-node simulations (Alpenglow::new + run over a harness byte-level network, paused clock) with bounded-progress oracle and an observed-assumption guard",
+        "Generated-input search over stakes, crash / Byzantine sets, Rotor / Turbine, pre-stabilisation delay chaos, post-stabilisation hop delays and a slow shred receiver; bounded liveness in virtual time, skip / finalisation certificates read off the wire, fast-finalisation clause for homogeneous delays.",
+        "liveness as a bound derived from the code's constants; no message loss; std::time-based paths see no elapsed time; windows whose Rotor assumption (>= 32 live relays per slice) failed are excluded and counted",
+        "DESIGN.md §5 C02",
+    ),
+    "C05": (
+        "proptest-generated single-node simulations (real pool + real Votor, unrestricted puppets, paused clock) with a history monitor over the node's broadcast votes",
+        "Generated-input search over block arrivals (several per slot, children before parents), timeouts, puppet votes and certificates, rule-following and contested rounds across windows and pruning; every vote the node broadcasts is judged against the tapped pool events and its earlier votes (rules R1-R6), its votes are replayed into a fresh pool in two orders.",
+        "puppets may exceed 20 % so unsafe certificate sets end a case without verdict; single-thread paused runtime",
+        "DESIGN.md §5 C05",
+    ),
+    "C09": (
+        "proptest wire-level construction of votes and certificates whose validity is known by construction (independent marked sets / aggregated signature multisets, small-order point tampering)",
+        "Generated-input search: every aggregated signature is a real signature of a known validator over a known (possibly wrong) payload, marked sets are chosen independently, signer sets sit around the thresholds, mask lengths vary, declared stake is arbitrary; the iff-condition of the statement is evaluated exactly and compared with ValidatedVote / ValidatedCert.",
+        "BLS uniqueness / unforgeability; n <= 24",
+        "DESIGN.md §5 C09",
+    ),
+    "C10": (
+        "proptest-generated full-node simulations with a catalogue of hostile, partly validly signed inputs on all five interfaces; panic hook + functional liveness probes",
+        "Generated-input search: up to 40 hostile messages per case (junk, extreme-slot votes, malformed certificates, Byzantine-leader-signed blocks incl. u64::MAX-adjacent windows, crafted odd-sized shreds, mutated shreds, repair traffic, oversized transactions) injected into running full nodes; no panic anywhere in the process, finalisation resumes, repair responder still answers; a repair-traffic guard turns message storms into a reported signature.",
+        "one Byzantine validator; 4..=6 validators; paused clock",
+        "DESIGN.md §5 C10",
+    ),
+    "C12": (
+        "proptest wire-level mutation of genuine shreds under four cache modes, store scenarios through the node's validate-then-store path, plus a full-node equivocation scenario",
+        "Generated-input search: a shred is authentic iff it equals, header + position + payload + proof, a shred of one of the versions the leader signed in the case; every other mutation must be refused; conflicting versions must yield Equivocation / one InvalidBlock; nothing that passed validation for a correct leader's slice may implicate it; one case in 64 runs full nodes shown two versions of a slice.",
+        "Ed25519 / SHA-256; tag and signature bytes are covered by the no-false-flag clause",
+        "DESIGN.md §5 C12",
+    ),
+    "C13": (
+        "proptest block shapes x delivery orders x Byzantine-signed malformations against recomputed double-Merkle root and exactly-once event oracles; fast-path differential",
+        "Generated-input search over 1..=40-slice blocks, delivery orders with duplicates and withheld shreds, delivery through the node's cached-commitment path with garbled signatures, and eight kinds of malformed content placed anywhere (also after the block completed).",
+        "store fed as consensus.rs feeds it",
+        "DESIGN.md §5 C13",
+    ),
+    "C14": (
+        "proptest scripted-peer simulations of the real Repair loop and the real RepairRequestHandler on a paused clock; integrity / progress oracles and responder probes",
+        "Generated-input search over block shapes and per-request reaction scripts (12 reaction kinds incl. Byzantine-leader-signed variants) with a fairness bound; whenever a block is held or announced under an id its hash equals the id; the repair completes within the retry budget; every responder answer verifies against the block hash.",
+        "fairness premise of the property; the three peers addressed per request are played by one scripted respondent (request amplification is a C10 finding)",
+        "DESIGN.md §5 C14",
+    ),
     "C03": (
         "proptest stateful vote/certificate sequences against a stake reference model + receiver-side validation (differential)",
         "Generated-input search over vote and received-certificate sequences (threshold-exact stakes, duplicates, conflicts, every arrival order sampled); per call a u128 stake model over the accepted votes predicts exactly which certificates must appear; each created certificate is re-validated as a receiver would and its signer set compared with the accepted voters. Right level: the property quantifies over input sequences and has an executable exact oracle.",
